@@ -49,7 +49,10 @@ def main() -> int:
     items, info = relgen.programs(run.tier, run.seed)
     timeout_ms = 20000 if quick else 90000
     for it in items:
-        it.update(backends=BACKENDS, agree=True, timeout_ms=timeout_ms)
+        if it["model"] == "Ticket":      # second schema exists for SQLAlchemy only
+            it.update(backends=["sa_select"], agree=False, timeout_ms=timeout_ms)
+        else:
+            it.update(backends=BACKENDS, agree=True, timeout_ms=timeout_ms)
     pre = [(_replay_known, (e["witness"],)) for e in run.known if _has_region(e)]
     muts = selftest_orm.rel_items(BACKENDS, timeout_ms)
     active: List[str] = []
